@@ -116,6 +116,8 @@ def run(tier):
         servercommon.stats_wiring_stage(c)
     except ImportError:
         c.notes.append("server traffic wiring stage not available")
+    from checks import proccommon
+    proccommon.binary_stats_stage(c)
     c.rule = ("spec->code: one behaviour per transition of MC_Stats (8 recording ops x 3 addresses x workers, snapshot, merge, report; "
               "bounded-exhaustive) replayed on real recorders/queue/reporter with the projection logged after every op; code->spec: seeded "
               "sequences (one of 10,000 ops) over 8 addresses, limits 1..8, 1..3 workers; distinct = (kind, address, overflowing?, #tracked)")
